@@ -168,7 +168,7 @@ def check(run, mod, args):
 		return None
 
 	for r in failed:
-		if r.expect == 'sat':
+		if r.expect in ('sat', 'sat-any'):
 			run.machinery_errors.append(f'vacuity guard failed: {r.name}: {r.detail}')
 			continue
 		k = is_known('obligation', r.name, '')
@@ -267,7 +267,7 @@ def check(run, mod, args):
 
 def write_evidence(run, mod, args, results, unsupported, bounded, eng=None, missing=(), fatal=False):
 	pid = run.id
-	counted = {n: r for n, r in results.items() if r.expect != 'sat'}
+	counted = {n: r for n, r in results.items() if r.expect not in ('sat', 'sat-any')}
 	known_names = {name for k, name in run.known_hits}
 	claimed = {n: r for n, r in counted.items() if n not in known_names}
 	discharged = sum(1 for r in claimed.values() if r.verdict in ('discharged', 'trivial'))
@@ -295,7 +295,7 @@ def write_evidence(run, mod, args, results, unsupported, bounded, eng=None, miss
 		'backends': backends,
 		'solver_seconds': round(sum(r.seconds for r in results.values()), 2),
 		'slowest': sorted(((round(r.seconds, 2), n) for n, r in results.items()), reverse=True)[:5],
-		'vacuity_guards': {n: r.detail for n, r in results.items() if r.expect == 'sat'},
+		'vacuity_guards': {n: r.detail for n, r in results.items() if r.expect in ('sat', 'sat-any')},
 		'failed': [n for n, r in claimed.items() if r.verdict == 'failed'],
 		'undecided': [list(u) for u in run.undecided][:50],
 		'known_failing': [{'obligation': name, 'finding': k.get('what')} for k, name in run.known_hits],
